@@ -120,7 +120,7 @@ UNITS = [
 VERIFIED_CALLEES = ()
 LEVEL = "other"
 TECHNIQUE = "contract-based deductive verification (VCs from the real AST with ghost call events) + bounded run-time contract checking of auto_cli on generated signatures"
-LEVEL_TEXT = "Verified with ghost call events: auto_cli builds the parser, declares the component(s), parses the given argv, instantiates and dispatches exactly one component selected by the parsed subcommand path, returning its result (10 component shapes); _add_component_to_parser / _add_subcommands declare functions, classes (constructor group + one required subcommand per public method or property) and nested dicts with the caller's settings; _add_signature_arguments offers every resolved parameter exactly once in signature order (skips honoured, existing options refused first); _add_signature_parameter decides required / positional / Optional->None / default kept / *args, **kwargs and private defaults skipped (1536 parameter shapes); _run_component invokes the component (and the chosen method) exactly once, each with exactly its own parameters, constructor before method; handle_subcommands passes the failure mode down nested levels. Bounded only: auto_cli end to end on generated signatures (34 types, 1-3 parameters, all kinds, argv and config)."
+LEVEL_TEXT = "Verified with ghost call events: auto_cli builds the parser, declares the component(s), parses the given argv, instantiates and dispatches exactly one component selected by the parsed subcommand path, returning its result (10 component shapes); _add_component_to_parser / _add_subcommands declare functions, classes (constructor group + one required subcommand per public method or property) and nested dicts with the caller's settings; _add_signature_arguments offers every resolved parameter exactly once in signature order (skips honoured, existing options refused first); _add_signature_parameter decides required / positional / Optional->None / default kept / *args, **kwargs and private defaults skipped (1536 parameter shapes); _run_component invokes the component (and the chosen method) exactly once, each with exactly its own parameters, constructor before method; handle_subcommands passes the failure mode down nested levels. Also: add_class_arguments / add_function_arguments / add_method_arguments (arguments in their roles), the selection clauses of get_subcommands (incl. methods without parameters: empty sections), and the lemma that every text Python prints for an int / float (incl. 1e-05) is read as that number by the real loader table. Bounded only: auto_cli end to end on generated signatures (34 types, 1-3 parameters, all kinds, argv and config)."
 LEVEL_NOTE = "under construction"
 EXPLANATION = "under construction"
 ASSUMPTIONS = []
